@@ -272,6 +272,20 @@ def rigid_key(t):
     return specs.skey_ty(xspec.rigid_image(t))
 
 
+def doubling_model(types):
+    """ Another functor on the same type objects, sending each atom to two
+    wires: translations are functions of the functor asked, not of what
+    other functors did to the same types before. """
+    from discopy import biclosed, rigid
+    model = biclosed.Functor(
+        ob=lambda x: rigid.Ty(x[0].name, x[0].name), ar={},
+        ob_factory=rigid.Ty, ar_factory=rigid.Diagram)
+    for t in types:
+        image = model(t)
+        require(len(image) == 2 * len(biclosed.biclosed2rigid(t)),
+                "C18:model-on-types", lambda: "{} -> {}".format(t, image))
+
+
 def check_rule(case):
     from discopy.biclosed import biclosed2rigid
     kind = case["kind"]
@@ -297,6 +311,7 @@ def check_rule(case):
                                       "cod": case["b"], "dag": False,
                                       "word": case["n"] % 2 == 0}, 0]]}
         d = specs.build(spec)
+        doubling_model([d.dom, d.cod] + [x.dom for x in d.boxes])
         image = biclosed2rigid(d)
         specs.well_typed(image, "biclosed2rigid")
         require(specs.tkey(image.dom) == rigid_key(spec["dom"])
@@ -310,6 +325,8 @@ def check_rule(case):
     d = specs.build(spec)
     specs.well_typed(d, "biclosed diagram")
     specs.matches_spec(d, spec, "rule box")
+    if case["n"] % 2:
+        doubling_model([d.dom, d.cod])
     image = biclosed2rigid(d)
     specs.well_typed(image, "biclosed2rigid")
     dom, cod = spec["dom"], specs.spec_cod(spec)
